@@ -117,6 +117,27 @@ func streamUnmarshal(r *hx.Rng, cfs []*cfile, bs *builtSet) {
 			}
 			for _, md := range c.messages() {
 				vals := genValues(r, md)
+				// map entries reduced to their key / their value / nothing, for every map field (an omitted message
+				// value is the empty message: when its type has required fields the input lacks a required field)
+				if prop == "C06" || prop == "C17" || prop == "C08" {
+					for i := 0; i < md.Fields().Len(); i++ {
+						fd := md.Fields().Get(i)
+						if !fd.IsMap() {
+							continue
+						}
+						g := &vgen{r: r, noTrick: true}
+						kc := g.occurrence(1, fd.MapKey(), randScalar(r, fd.MapKey()))
+						vc := g.occurrence(2, fd.MapValue(), randValueFor(r, fd.MapValue()))
+						for _, parts := range [][]chunk{{kc}, {vc}, {}, {vc, kc}} {
+							in := protowire.AppendBytes(protowire.AppendTag(nil, fd.Number(), protowire.BytesType), concatChunks(parts))
+							// plus the message's own required fields, so that only the entry decides
+							base := dynamicpb.NewMessage(md)
+							fillRequired(r, base, 3)
+							in = append(canonical(base), in...)
+							cases = append(cases, ucase{c, md, in, nil, "mapedge", prop != "C08"})
+						}
+					}
+				}
 				for vi, v := range vals {
 					canon := canonical(v)
 					pre := []byte{}
@@ -221,7 +242,14 @@ func streamUnmarshal(r *hx.Rng, cfs []*cfile, bs *builtSet) {
 					if dupSingularMsg(u.md, u.input) {
 						dup = "dup"
 					}
-					sink.Add("legal", fmt.Sprintf("G LG %s %d %s", u.c.Term, idx, hx.B(u.input)), "legal "+dup, len(u.input) > 0)
+					// legal encodings only nest initialised messages (a conforming writer refuses to emit others); the
+					// corpus values with unset required fields below the root fall outside, by this independent test
+					leg := "legal"
+					if nestedUninit(u.md, u.input) {
+						leg = "illegal"
+						sink.Count("legal:nested-uninitialised")
+					}
+					sink.Add("legal", fmt.Sprintf("G LG %s %d %s", u.c.Term, idx, hx.B(u.input)), leg+" "+dup, len(u.input) > 0)
 				}
 			case "C08":
 				sink.Count("resp:" + strings.SplitN(resp, " ", 2)[0])
@@ -340,6 +368,28 @@ func hasNegZero(md protoreflect.MessageDescriptor, b []byte) bool {
 				if v, _ := protowire.ConsumeFixed64(b[n:]); v == 0x8000000000000000 {
 					return true
 				}
+			case typ == protowire.BytesType && fd.IsMap():
+				// map values are always emitted (no `!= 0` test): only message values can hold the pattern
+				if vd := fd.MapValue(); vd.Kind() == protoreflect.MessageKind {
+					e, _ := protowire.ConsumeBytes(b[n:])
+					for len(e) > 0 {
+						n2, t2, c := protowire.ConsumeTag(e)
+						if c < 0 {
+							break
+						}
+						k2 := protowire.ConsumeFieldValue(n2, t2, e[c:])
+						if k2 < 0 {
+							break
+						}
+						if n2 == 2 && t2 == protowire.BytesType {
+							pv, _ := protowire.ConsumeBytes(e[c:])
+							if hasNegZero(vd.Message(), pv) {
+								return true
+							}
+						}
+						e = e[c+k2:]
+					}
+				}
 			case typ == protowire.BytesType && fd.Kind() == protoreflect.MessageKind:
 				val, _ := protowire.ConsumeBytes(b[n:])
 				if hasNegZero(fd.Message(), val) {
@@ -360,4 +410,73 @@ func classify(base string, md protoreflect.MessageDescriptor, input []byte) stri
 		return base + ":negzero"
 	}
 	return base
+}
+
+
+// nestedUninit: some occurrence of a message-typed field (singular, oneof member, list element, map value;
+// a map entry without a value counts as the empty message), at any depth, is a message with a required
+// field unset.  Each occurrence is judged on its own bytes, as GenLegal.v does.
+func nestedUninit(md protoreflect.MessageDescriptor, b []byte) bool {
+	uninit := func(sub protoreflect.MessageDescriptor, payload []byte) bool {
+		m := dynamicpb.NewMessage(sub)
+		bad := false
+		func() {
+			defer func() {
+				if recover() != nil {
+					bad = true
+				}
+			}()
+			if err := (proto.UnmarshalOptions{AllowPartial: true}).Unmarshal(payload, m); err != nil {
+				bad = true
+			}
+		}()
+		if bad {
+			return false // not a parsable message: illegal for other reasons, not ours to flag
+		}
+		return proto.CheckInitialized(m) != nil || nestedUninit(sub, payload)
+	}
+	for len(b) > 0 {
+		num, typ, n := protowire.ConsumeTag(b)
+		if n < 0 {
+			return false
+		}
+		k := protowire.ConsumeFieldValue(num, typ, b[n:])
+		if k < 0 {
+			return false
+		}
+		if fd := md.Fields().ByNumber(num); fd != nil && typ == protowire.BytesType && fd.Kind() == protoreflect.MessageKind {
+			val, _ := protowire.ConsumeBytes(b[n:])
+			if fd.IsMap() {
+				if vd := fd.MapValue(); vd.Kind() == protoreflect.MessageKind {
+					seen := false
+					e := val
+					for len(e) > 0 {
+						n2, t2, c := protowire.ConsumeTag(e)
+						if c < 0 {
+							break
+						}
+						k2 := protowire.ConsumeFieldValue(n2, t2, e[c:])
+						if k2 < 0 {
+							break
+						}
+						if n2 == 2 && t2 == protowire.BytesType {
+							seen = true
+							pv, _ := protowire.ConsumeBytes(e[c:])
+							if uninit(vd.Message(), pv) {
+								return true
+							}
+						}
+						e = e[c+k2:]
+					}
+					if !seen && uninit(vd.Message(), nil) {
+						return true
+					}
+				}
+			} else if uninit(fd.Message(), val) {
+				return true
+			}
+		}
+		b = b[n+k:]
+	}
+	return false
 }
